@@ -12,6 +12,8 @@
    uid of the detection they came from.  Qualities, areas and own-area shares are the exact rationals of the f32
    values.  NaN qualities are outside the model (the code panics on them in `partial_cmp().unwrap()`). *)
 From Coq Require Import List NArith QArith Bool Arith.
+From Similari Require Base.Num.
+From SimilariGen Require Scalar ScalarBox ScalarVisual.
 Import ListNotations.
 Local Open Scope nat_scope.
 
@@ -35,13 +37,15 @@ Record gopts := mkGopts {
   o_own_collect : Q      (* visual_minimal_own_area_percentage_collect *)
 }.
 
-(* feature_can_be_used(bbox, quality, minimal quality, own share, minimal share):
-   bbox_is_ok && quality_is_ok && percentage_is_ok, every comparison a `>=`. *)
+(* feature_can_be_used is the TRANSLATED Rust predicate (gen/ScalarVisual.v, regenerated from
+   src/trackers/visual_sort/metric.rs on every run) instantiated at exact rationals.  The translated text takes the box;
+   the model knows the box through its area (an oracle fact), so it passes a box of aspect = area and height = 1, whose
+   translated area is the given one (VisualAttrsProofs.box_of_area_area). *)
+Definition box_of_area (a : Q) : Scalar.Universal2DBox Num.Qops :=
+  Scalar.Build_Universal2DBox Num.Qops 0%Q 0%Q None a 1%Q 1%Q.
+
 Definition feature_can_be_used (min_area : Q) (area q min_q : Q) (own : option Q) (min_own : Q) : bool :=
-  let quality_is_ok := Qle_bool min_q q in
-  let percentage_is_ok := match own with Some p => Qle_bool min_own p | None => true end in
-  let bbox_is_ok := Qle_bool min_area area in
-  bbox_is_ok && quality_is_ok && percentage_is_ok.
+  ScalarVisual.visual_feature_can_be_used Num.Qops (Some (box_of_area area)) q min_q own min_own min_area.
 
 Definition can_collect (o : gopts) (d : det) : bool :=
   feature_can_be_used (o_min_area o) (d_area d) (d_q d) (o_q_collect o) (d_own d) (o_own_collect o).
@@ -88,11 +92,15 @@ Fixpoint insert_desc (e : gentry) (l : gallery) : gallery :=
 Definition sort_desc (l : gallery) : gallery := fold_right insert_desc [] l.
 
 (* retain(feature.is_some()); drop old boxes (not modelled: boxes of stored entries are not observable through uids);
-   sort; if len >= max { truncate(len - 1) } *)
+   sort; if len >= max { truncate(len - 1) } - the comparison and the new length are the TRANSLATED ones
+   (ScalarVisual.visual_truncate_cmp / visual_truncate_len). *)
 Definition optimize_observations (max_obs : nat) (g : gallery) : gallery :=
   let g1 := filter g_feat g in
   let g2 := sort_desc g1 in
-  if max_obs <=? length g2 then removelast g2 else g2.
+  let len := N.of_nat (length g2) in
+  if ScalarVisual.visual_truncate_cmp Num.Qops len (N.of_nat max_obs)
+  then firstn (N.to_nat (ScalarVisual.visual_truncate_len Num.Qops len)) g2
+  else g2.
 
 (* observations.push(newest); observations.swap(0, len-1) *)
 Definition push_swap (g : gallery) (e : gentry) : gallery :=
